@@ -27,7 +27,9 @@ ASSUMPTIONS = [
     "result must equal the recorded term evaluated with Python float operations, bit for bit, and the "
     "specification term evaluated the same way)",
     "values are compared modulo neg(neg a) = a (exact in IEEE-754), the only law the sign folding uses; "
-    "unary plus is the identity by definition of the specification (AtomBase has no __pos__)",
+    "unary plus is the identity by definition of the specification (AtomBase has no __pos__); on Python bools "
+    "the law holds up to value only (-(-False) is 0), which can change numpy's result dtype (np.log10(True) is "
+    "float16): the AtomBase stream therefore evaluates the specification term after applying the law",
     "atom methods are total functions in the theorems (a raising float operation such as 1/0 is covered only by "
     "the AtomBase stream, where term evaluation and solver must raise alike)",
     "blanks are spaces; number literals are digits[.digits][e digits] or .digits[e digits] "
@@ -119,7 +121,12 @@ def judge_text(ctx, text, cls, ast_eval, model, opname, where):
             # stock AtomBase: same operations on floats
             stock = L.run_stock(text)
             via_impl = L.float_outcome(lambda: L.eval_float(impl["atom"]))
-            via_spec = L.float_outcome(lambda: L.eval_float(ast_eval))
+            # the specification value modulo neg(neg a) = a (the assumed law): on Python bools the law holds
+            # only up to value (-(-False) is the int 0) and numpy picks float16 for np.log10(True) but a wider
+            # type next to an int, so the un-normalised term may differ at float16 precision: counted, no verdict
+            via_spec = L.float_outcome(lambda: L.eval_float(L.norm(ast_eval)))
+            if via_spec != L.float_outcome(lambda: L.eval_float(ast_eval)):
+                ctx.count("atombase.negneg_bool_dtype_artefact")
             if stock != via_spec:
                 ctx.violation("wf-value-atombase",
                               "AtomBase on %r gives %s, the documented order evaluated in floats gives %s" %
